@@ -6,7 +6,8 @@ Driver operations for C08 (equivariance of the fits).
 `fit8 <Q|F> <geom> <n> <wmode> <eps> <cx> <cy> <6n numbers: x y u v wx wu per row>`
   geom  = shift | general | rscale | rshift     (Q only for shift/general: no trigonometry on ℚ)
   wmode = 0 no weights | 1 wxy only | 2 wuv only | 3 both
-  eps   = the `tiny` of `linalg.inv` (used by `general` only)
+  eps   = the `tiny` of `linalg.inv` (used by `general` only; the threshold of its collinearity
+          guard is fixed to `numpy.finfo(numpy.double).eps = 2^-52`)
   cx cy = rotation centre: the rows are centred (`Row.centre`), fitted, and the *effective* map
           `Lin.eff` is printed (`0/1 0/1` = no centring)
   → `ok m00 m01 m10 m11 sx sy` | `err <kind>`
@@ -42,8 +43,9 @@ def wflags8 (wmode : Nat) : Option (Bool × Bool) :=
   | 3 => some (true, true)
   | _ => none
 
-/-- the header common to all geometries; `run` receives the flags, `eps`, and the centred rows -/
-def opFit8With (run : Bool → Bool → K → List (Row K) → Except FitErr (Lin K)) (args : List String) : String :=
+/-- the header common to all geometries; `run` receives the flags, `eps`, the threshold `epsD = 2^-52`
+of the collinearity guard of `fit_general`, and the centred rows -/
+def opFit8With (run : Bool → Bool → K → K → List (Row K) → Except FitErr (Lin K)) (args : List String) : String :=
   match args with
   | ns :: wms :: epss :: cxs :: cys :: rest =>
     match ns.toNat?, wms.toNat?, (Sc.parse epss : Option K), (Sc.parse cxs : Option K),
@@ -53,7 +55,10 @@ def opFit8With (run : Bool → Bool → K → List (Row K) → Except FitErr (Li
       | some (bx, bu), some rows =>
         if rows.length ≠ n then "bad-op" else
         let c : V2 K := ⟨cx, cy⟩
-        match run bx bu eps (rows.map (Row.centre c)) with
+        match (Sc.parse epsDStr : Option K) with
+        | none => "bad-op"
+        | some epsD =>
+        match run bx bu eps epsD (rows.map (Row.centre c)) with
         | .ok L => fmtLin8 K (Lin.eff c L)
         | .error e => fitErrStr8 e
       | _, _ => "bad-op"
@@ -62,8 +67,8 @@ def opFit8With (run : Bool → Bool → K → List (Row K) → Except FitErr (Li
 
 def opFit8NoTrig (args : List String) : String :=
   match args with
-  | "shift" :: rest => opFit8With K (fun bx bu _ rows => fitShiftsR bx bu rows) rest
-  | "general" :: rest => opFit8With K (fun bx bu eps rows => fitGeneralR eps bx bu rows) rest
+  | "shift" :: rest => opFit8With K (fun bx bu _ _ rows => fitShiftsR bx bu rows) rest
+  | "general" :: rest => opFit8With K (fun bx bu eps epsD rows => fitGeneralR eps epsD bx bu rows) rest
   | _ => "bad-op"
 
 def opClip8 (args : List String) : String :=
@@ -79,9 +84,9 @@ end
 
 def opFit8Float (args : List String) : String :=
   match args with
-  | "rscale" :: rest => opFit8With Float (fun bx bu _ rows => fitRscaleR bx bu none rows) rest
+  | "rscale" :: rest => opFit8With Float (fun bx bu _ _ rows => fitRscaleR bx bu none rows) rest
   | "rshift" :: rest =>
-      opFit8With Float (fun bx bu _ rows => fitRscaleR bx bu (some (1.0 : Float)) rows) rest
+      opFit8With Float (fun bx bu _ _ rows => fitRscaleR bx bu (some (1.0 : Float)) rows) rest
   | _ => opFit8NoTrig Float args
 
 def opsC08 : List (String × (List String → String)) :=
